@@ -95,3 +95,54 @@ def verify_is_sec1(ex, ec):
     idx = (c * w + r * w * qi) % n
     ref = sand(idx != 0, xs[idx] % n == r, sor(snot(low), s <= n // 2))
     return {"accept_iff_sec1": iff(accepted, ref)}
+
+
+@ob("C02", "sig_validity_is_range_and_x_congruence", quick=[dict(ec=c) for c in toy.QUICK + ["ec67_29h2"]], thorough=[dict(ec=c) for c in toy.ALL],
+    bound="r and s in -1..n+1 symbolic: Sig(r, s, ec).assert_valid() accepts exactly when both are in 1..n-1 and some r + j*n below p is the x-coordinate of a curve point "
+          "(cofactor > 1 curves need j > 1: ec67_19h4 has p = 67, n = 19)",
+    functions=["btclib.ecc.dsa.Sig.assert_valid", "btclib.curves.curve._is_x_coordinate_var"], timeout=600, min_ok=1)
+def sig_validity(ex, ec):
+    name = ec
+    ec = toy.curve(name)
+    g = toy.group(name)
+    n, p = ec.n, ec.p
+    r = ex.int("r", -1, n + 1)
+    s = ex.int("s", -1, n + 1)
+    xs_on_curve = sorted(set(g.xs[1:]))
+    congruent = False
+    for j in range(0, p // n + 1):
+        for x in xs_on_curve:
+            congruent = sor(congruent, r + j * n == x)
+    want = sand(0 < r, r < n, 0 < s, s < n, congruent)
+    try:
+        dsa.Sig(r, s, ec)
+        ok = True
+    except BTClibValueError:
+        ok = False
+    return {"accept_iff_valid": iff(ok, want)}
+
+
+@ob("C02", "key_id_recovers_exactly_the_signer", quick=[dict(ec="ec23_19")], thorough=[dict(ec=c) for c in ("ec23_19", "ec13_19", "ec17_23", "ec19_23", "ec23_31")],
+    bound="private key q, nonce k in 1..n-1, challenge c in 0..n-1, lower_s flag symbolic at once; curves with n < p, where x_K >= n occurs and the recovery id must carry it",
+    stubs=["curve.mult and curve._jac_double_mult are answered from the independent whole-group oracle"],
+    functions=["btclib.ecc.dsa._sign_recoverable_", "btclib.ecc.dsa._recover_pub_key_"], timeout=1200, weight=9, query_timeout_ms=300000)
+def key_id_recovers(ex, ec):
+    name = ec
+    ec = toy.curve(name)
+    g = toy.install_group_oracle(ex, name)
+    n = ec.n
+    q = ex.int("q", 1, n - 1)
+    k = ex.int("k", 1, n - 1)
+    low = ex.bool("low")
+    c = ex.int("c", 0, n - 1)
+    try:
+        sig, key_id = dsa._sign_recoverable_(c, q, k, low, ec)
+    except BTClibRuntimeError:
+        return ex.refuse("BTClibRuntimeError")
+    Qi = g.mul_idx(q, g.g)
+    try:
+        R = dsa._recover_pub_key_(key_id, c, sig.r, sig.s, ec, lower_s=low)
+        ok = g.idx_of_jac(R) == Qi
+    except (BTClibValueError, BTClibRuntimeError):
+        ok = False
+    return {"key_id_recovers_signer": ok, "key_id_range": sand(key_id >= 0, key_id < 2 * (ec.cofactor + 1))}
